@@ -42,7 +42,69 @@ def run(rep):
     rep.assumptions = ["alias catalogue and type table are the specification's own (logicgen.SPELL, TypeTable.tla)",
                        "values with references are compared after path tokens are normalised on both sides (C03 judges the paths)"]
     _logic.run(rep, PROP, "binds", _canaries)
+    part_parameters(rep)
+
+
+PAR_CFG = "SPECIFICATION TSpec\nCONSTANT MaxItems = 0\nCONSTRAINT Accepted\nCHECK_DEADLOCK FALSE\n"
+
+
+def part_parameters(rep):
+    """Parameters.tla: the `parameters` cell grammar (envelope Meaning + transcription Parse) against the real parser."""
+    from harness import conv, corpus, paramgen, tlc
+
+    n = 3 if rep.tier == "quick" else 4
+    cfg = corpus._cfg(f"Gen_Parameters_{n}.cfg", f"SPECIFICATION PSpec\nCONSTANT MaxItems = {n}\nINVARIANT TranscriptionMeetsEnvelope\nINVARIANT SeparatorsAgree\nCONSTRAINT Emit\nCHECK_DEADLOCK FALSE\n")
+    if n == 3:
+        cases, r = tlc.generate("Gen_Parameters", cfg, tag="genpar", timeout=900)
+    else:
+        c3, r = tlc.generate("Gen_Parameters", corpus._cfg("Gen_Parameters_3.cfg", "SPECIFICATION PSpec\nCONSTANT MaxItems = 3\nINVARIANT TranscriptionMeetsEnvelope\nINVARIANT SeparatorsAgree\nCONSTRAINT Emit\nCHECK_DEADLOCK FALSE\n"), tag="genpar", timeout=900)
+        c4, _ = tlc.generate("Gen_Parameters", cfg, tag="genpar4", simulate="num=40000", depth=7, seed=rep.seed + 5, timeout=900)
+        cases = c3 + [c for c in c4 if len(c["cell"]["items"]) == 4]
+    rep.add_mc(r, "Gen_Parameters: every cell of <= 3 key=value items x 6 separator styles x blanks around '='; TranscriptionMeetsEnvelope, SeparatorsAgree")
+    rep.bounds["parameter_cells"] = {"max_items": n, "cases": len(cases), "documented_style": sum(1 for c in cases if c["dom"])}
+    outs = conv.map_cases(paramgen.run, [{"cell": c["cell"], "text": c["text"]} for c in cases], chunksize=512)
+    for o in outs:
+        if o.get("status") == "harness_error":
+            raise tlc.MachineryError(o["message"] + "\n" + o.get("tb", ""))
+    tcfg = corpus._cfg("Trace_Parameters.cfg", PAR_CFG)
+    acc, info = tlc.validate_traces("Trace_Parameters", tcfg, [o["trace"] for o in outs], shards=8, tag="trpar", timeout=1200)
+    rep.traces_validated += len(acc)
+    rep.extra.setdefault("trace_runs", []).append({"source": "parameter cells through the real parameters_generic.parse", "traces": len(outs), "accepted": len(acc),
+                                                   "drift_from_transcription": len(info["drift"]), "wall_s": round(info["wall"], 1)})
+    if info["drift"]:
+        rep.drift.append(f"{len(info['drift'])} parameter cells parse differently from Parameters!Parse (envelope intact)")
+    for i, o in enumerate(outs):
+        rep.case({"parameters": o["job"]["text"]})
+        if i in acc:
+            continue
+        l, clause = info["progress"].get(i, (0, "unexplained_event"))
+        rep.violation(f"{PROP}:parameters:{clause}", f"clause {clause}; cell {o['job']['text']!r} real={o['trace'][0]['real']}"[:400], {"parameters": True, "job": o["job"], "clause": clause})
+    ok = [o for i, o in enumerate(outs) if i in acc and len(o["trace"][0]["real"]["pairs"]) >= 2 and o["trace"][0]["real"]["status"] == "ok"]
+    dom = [o for o in ok if all(s == ";" for s in o["job"]["cell"]["seps"]) and all(i["eq"] == "=" for i in o["job"]["cell"]["items"])]
+    if not dom:
+        if rep.violations:
+            return
+        raise tlc.MachineryError("parameters: no accepted execution to corrupt")
+    cans = []
+    t = copy.deepcopy(dom[0]["trace"]); t[0]["real"]["pairs"] = t[0]["real"]["pairs"][:-1]; cans.append(("parameter_dropped", t))
+    t = copy.deepcopy(dom[0]["trace"]); t[0]["real"]["status"] = "crash:ValueError"; cans.append(("parameter_parser_crash", t))
+    t = copy.deepcopy(dom[0]["trace"]); t[0]["real"]["status"] = "pyxform_error"; t[0]["real"]["pairs"] = []; cans.append(("documented_cell_refused", t))
+    a, _ = tlc.validate_traces("Trace_Parameters", tcfg, [c[1] for c in cans] + [dom[0]["trace"]], shards=1, tag="canary")
+    if any(i in a for i in range(len(cans))) or len(cans) not in a:
+        raise tlc.MachineryError(f"parameters canary failure: accepted {[cans[i][0] for i in a if i < len(cans)]}")
+    rep.extra.setdefault("canaries_rejected", []).extend(c[0] for c in cans)
 
 
 def replay(rep, case):
+    c = case["case"]
+    if c.get("parameters"):
+        from harness import corpus, paramgen, tlc
+
+        o = paramgen.run(c["job"])
+        acc, info = tlc.validate_traces("Trace_Parameters", corpus._cfg("Trace_Parameters.cfg", PAR_CFG), [o["trace"]], shards=1, tag="replay")
+        rep.traces_validated += len(acc)
+        rep.case(c["job"]["text"])
+        if 0 not in acc:
+            rep.violation(f"{PROP}:parameters:{info['progress'].get(0, (0, '?'))[1]}", "replay", c)
+        return
     _logic.replay(rep, PROP, case)
